@@ -531,7 +531,7 @@ func c14GenGraph(c *Ctx, i int) *c14Case {
 	}
 	j, lo, hi := c14Journal(r, val)
 	kinds := []string{"tree", "tree", "self", "two-cycle", "long-cycle", "diamond", "missing", "dir-as-file", "unreadable", "deep-chain", "siblings",
-		"bad-leaf", "bad-leaf", "bad-leaf-busy", "dotdot-alias", "dotdot-growing", "symlink-loop", "twice", "odd-names", "empty-include"}
+		"bad-leaf", "bad-leaf", "bad-leaf-busy", "dotdot-alias", "dotdot-growing", "symlink-loop", "twice", "odd-names", "empty-include", "bushy"}
 	tc.Kind = Pick(r, kinds)
 	dirs := []string{".", "sub", "sub/deep", "other"}
 	type node struct {
@@ -644,6 +644,25 @@ func c14GenGraph(c *Ctx, i int) *c14Case {
 		mk(n)
 		for k := 1; k < n; k++ {
 			link(0, k)
+		}
+		if r.Chance(1, 2) {
+			bad := c14BadLeaf[r.Intn(6)]
+			nodes[r.Intn(n-1)+1].raw = bad.text
+			tc.Tags = append(tc.Tags, "leaf:"+bad.name)
+			tc.ExpectFail = c14LeafFails(bad.name, tc.Cmd)
+		}
+	case "bushy":
+		// wide AND nested: many included files that each include a few more (more loader goroutines waiting for their
+		// children than any concurrency limit; seeded change C19-c deadlocked here)
+		w := r.Range(17, 45)
+		per := r.Range(1, 3)
+		n := 1 + w + w*per
+		mk(n)
+		for k := 1; k <= w; k++ {
+			link(0, k)
+		}
+		for k := w + 1; k < n; k++ {
+			link(1+(k-w-1)%w, k)
 		}
 		if r.Chance(1, 2) {
 			bad := c14BadLeaf[r.Intn(6)]
